@@ -3,6 +3,7 @@
 #![feature(rustc_private)]
 extern crate rustc_lexer;
 mod c01;
+mod c01gen;
 mod c01lit;
 mod c02;
 mod c07;
